@@ -8,6 +8,7 @@ import (
 	"fmt"
 	"os"
 	"path/filepath"
+	"time"
 
 	"verifharness/internal/h"
 )
@@ -74,6 +75,10 @@ func main() {
 	case "hist":
 		s = runHist(*seed, *n, *shards, *out, tmp, *backend, h.GenParams{
 			MaxCap: *maxcap, MinOps: *minops, MaxOps: *maxops, BigEvery: *bigevery, Queries: *queries,
+		})
+	case "determ":
+		s = runDeterm(*seed, *n, *shards, *out, tmp, h.GenParams{
+			MaxCap: *maxcap, MinOps: *minops, MaxOps: *maxops, BigEvery: *bigevery, Queries: 0, DetMode: true,
 		})
 	case "backend":
 		s = runBackend(*seed, *n, *shards, *out, tmp)
@@ -473,4 +478,138 @@ func firstDiffBytes(a, b []byte) int {
 		}
 	}
 	return n
+}
+
+// runDeterm: C12. Every history is executed twice, the second time after the wall clock has
+// crossed a second boundary, on sif.Buffer and on a file; as long as the history is clock-free
+// (options fix the time, or the image is deterministic) all four runs must be byte-identical.
+func runDeterm(seed uint64, n, shards int, out, tmp string, p h.GenParams) summary {
+	s := summary{
+		Family: "determ", Seed: seed, OpKinds: map[string]int{}, Results: map[string]int{},
+		Backends: map[string]int{}, Caps: map[string]int{}, OracleRuns: map[string]int{},
+		Extra: map[string]any{},
+	}
+	root := h.NewRng(seed)
+	seeds := make([]uint64, n)
+	for i := range seeds {
+		seeds[i] = root.U64()
+	}
+	runAll := func(pass int) [][2]h.Case {
+		var outp [][2]h.Case
+		for i, sd := range seeds {
+			var pair [2]h.Case
+			for k, be := range []string{"buf", "file"} {
+				pp := p
+				pp.Backend = be
+				c := h.GenHistory(h.NewRng(sd), 4*i+2*pass+k+1, pp)
+				if _, err := h.RunCase(&c, tmp); err != nil {
+					fmt.Fprintln(os.Stderr, "harness error:", err)
+					os.Exit(3)
+				}
+				pair[k] = c
+			}
+			outp = append(outp, pair)
+		}
+		return outp
+	}
+	first := runAll(0)
+	// cross a wall-clock second boundary
+	t0 := time.Now().Unix()
+	for time.Now().Unix() < t0+1 {
+		time.Sleep(20 * time.Millisecond)
+	}
+	time.Sleep(50 * time.Millisecond)
+	second := runAll(1)
+	s.Extra["second_boundary_crossed"] = time.Now().Unix() > t0
+
+	var cases []h.Case
+	distinct := map[string]bool{}
+	freeSteps, zeroChecked := 0, 0
+	for i := range first {
+		a, b := first[i][0], first[i][1]
+		a2, b2 := second[i][0], second[i][1]
+		for _, c := range []*h.Case{&a, &b, &a2, &b2} {
+			tally(&s, c, distinct)
+		}
+		cases = append(cases, a, b2) // the model sees one run of each pass/backend
+		s.OracleRuns["determ"]++
+		report := func(step int, what string) {
+			s.Oracle = append(s.Oracle, h.Finding{Property: "C12", Case: a.ID, Step: step, What: what, Input: a.Describe(step)})
+		}
+		idKnown, _, timeKnown, _ := a.Create.Expected()
+		if !(idKnown && timeKnown) || !a.HasHandle {
+			continue
+		}
+		same := func(step int, x, y h.Obs, who string) bool {
+			if x.Res != y.Res {
+				report(step, fmt.Sprintf("%s: results differ: %s / %s", who, x.Res, y.Res))
+				return false
+			}
+			if string(x.Store) != string(y.Store) {
+				report(step, fmt.Sprintf("%s: bytes differ at offset %d (lengths %d / %d)", who, firstDiffBytes(x.Store, y.Store), len(x.Store), len(y.Store)))
+				return false
+			}
+			return true
+		}
+		capZero := a.Create.EffCap() == 0
+		ok := same(0, a.InitObs, a2.InitObs, "same history at another wall-clock time") &&
+			(capZero || same(0, a.InitObs, b.InitObs, "memory and file backend"))
+		noExplicit := a.Create.IDKind == 2 || a.Create.TimeKind == 2
+		for _, k := range a.Create.Order {
+			if k == "time" && a.Create.TimeKind == 1 || k == "id" && a.Create.IDKind == 1 {
+				noExplicit = false
+			}
+		}
+		for j := 0; ok && j < len(a.Steps); j++ {
+			pre := a.InitObs
+			if j > 0 {
+				pre = a.Steps[j-1].Obs
+			}
+			img, err := h.DecodeImage(pre.Store)
+			if err != nil {
+				break
+			}
+			det := img.H.ID == [16]byte{} && img.H.Ctime == h.ZeroTime && img.H.Mtime == h.ZeroTime
+			op := a.Steps[j].Op
+			if op.Kind != h.OpReload && op.T.Kind == h.TDefault && !det {
+				break // from here on the history legitimately depends on the clock
+			}
+			freeSteps++
+			ok = same(j+1, a.Steps[j].Obs, a2.Steps[j].Obs, "same history at another wall-clock time") &&
+				(capZero || same(j+1, a.Steps[j].Obs, b.Steps[j].Obs, "memory and file backend")) &&
+				(capZero || same(j+1, a.Steps[j].Obs, b2.Steps[j].Obs, "file backend at another wall-clock time"))
+			// zero fields: nothing explicit so far => nil ID and zero times everywhere
+			if op.T.Kind == h.TExplicit || op.Kind == h.OpAdd && op.DI.TimeSet && op.DI.Time != h.ZeroTime {
+				noExplicit = false
+			}
+			for _, d := range a.Create.DIs {
+				if d.TimeSet && d.Time != h.ZeroTime {
+					noExplicit = false
+				}
+			}
+			if ok && noExplicit {
+				zeroChecked++
+				post, err := h.DecodeImage(a.Steps[j].Obs.Store)
+				if err == nil {
+					if post.H.ID != [16]byte{} || post.H.Ctime != h.ZeroTime || post.H.Mtime != h.ZeroTime {
+						report(j+1, fmt.Sprintf("deterministic image has ID %x, times %d/%d", post.H.ID, post.H.Ctime, post.H.Mtime))
+					}
+					for _, d := range post.Descs {
+						if d.Used && (d.Ctime != h.ZeroTime || d.Mtime != h.ZeroTime) {
+							report(j+1, fmt.Sprintf("object %d of a deterministic image has times %d/%d", d.ID, d.Ctime, d.Mtime))
+						}
+					}
+				}
+			}
+		}
+		if len(s.Samples) < 3 {
+			s.Samples = append(s.Samples, fmt.Sprintf("case %d cap=%d ops=%d twice on buf and file", a.ID, a.Create.EffCap(), len(a.Steps)))
+		}
+	}
+	s.Extra["clock_free_steps_compared"] = freeSteps
+	s.Extra["zero_field_checks"] = zeroChecked
+	s.Cases = len(cases)
+	s.Distinct = len(distinct)
+	writeShards(&s, cases, shards, out, "determ")
+	return s
 }
